@@ -411,7 +411,14 @@ _bounded('C41', 'c41_bounded',
          'exported variable equals the value exactly; and A=1, B=$A/2, C=${B}-$A evaluate in configuration order.',
          'Parameter-template interpolation (%(x)s) and the tilde forms are not exercised.')
 _bounded('C44', 'c44_bounded',
-         'For 8 umasks (000 ... 277): after the real WorkflowDatabaseManager.on_workflow_start (first start, and '
+         'PROVED relative to a POSIX model (a created file gets mode & ~umask; os.umask / os.chmod do what they '
+         'say; contracts/c44_private.py): in create_server_keys every call that creates a key file '
+         '(zmq.auth.create_certificates, shutil.copyfile - the client private key is a copy of the server one) '
+         'is a sink reached only with the process umask at 0o177, also for calls a later change adds or moves, '
+         'and the umask found at entry is restored; WorkflowDatabaseManager.on_workflow_start ends, on both the '
+         'first-start and the restart path, with the private database path chmod-ed to 0o600 after the file was '
+         '(re)created and nothing touching its mode afterwards. BOUNDED (that the libraries behave like the '
+         'model): for 8 umasks (000 ... 277): after the real WorkflowDatabaseManager.on_workflow_start (first start, and '
          'restart over an existing world-readable database) the private database has no group/other permission '
          'bit; after the real create_server_keys the server and client private keys have none and the process '
          'umask is restored.',
@@ -544,6 +551,10 @@ _mixed('C45', 'c45_bounded',
        'repaired (98e6ddf).',
        'The child loop of spawn_on_output (where the output is recorded) could not be brought under contract '
        '(DESIGN 11): bounded only.')
+
+# C44 (text above, with the bounded ones) has a proved part since contracts/c44_private.py
+CLAIMS['C44'] = dict(CLAIMS['C44'], category='other', technique=_MIXED_TECH,
+                     note=_PROOF_NOTE + CLAIMS['C44']['note'])
 
 NOT_APPLICABLE = {
     'C01': 'equality between the set of instances submitted over a whole run and the spawn-on-demand closure, for '
